@@ -118,7 +118,7 @@ def _attrs_enabled(attrs, features):
 # enums defined outside the crate (hard-wired; checked by the differential validation)
 EXTERNAL_ENUMS = {
     'Option': ['None', 'Some'], 'Result': ['Ok', 'Err'], 'ControlFlow': ['Continue', 'Break'],
-    'Poll': ['Ready', 'Pending'], 'Ordering': ['Less', 'Equal', 'Greater'], 'Cow': ['Borrowed', 'Owned'],
+    'Poll': ['Ready', 'Pending'], 'Entry': ['Occupied', 'Vacant'], 'Ordering': ['Less', 'Equal', 'Greater'], 'Cow': ['Borrowed', 'Owned'],
     'MediaType': ['JavaScript', 'Jsx', 'Mjs', 'Cjs', 'TypeScript', 'Mts', 'Cts', 'Dts', 'Dmts', 'Dcts', 'Tsx',
                   'Css', 'Json', 'Jsonc', 'Json5', 'Markdown', 'Html', 'Sql', 'Wasm', 'SourceMap', 'Unknown'],
     'DecodedArcSourceDetailKind': ['Unchanged', 'Changed', 'OnlyUtf8Bom'],
